@@ -95,6 +95,13 @@ Theorem C19_bounds4 : forall a len : N,
   ((16 <= len)%N -> ipv4_to_str a len = (0%Z, ipv4_text a ++ [0%N])).
 Proof. exact bounds4. Qed.
 
+(* IPv4 with the proposed repair of the silent truncation: success = the complete text *)
+Theorem C19_bounds4_fixed : forall a len : N,
+  (N.of_nat (length (snd (ipv4_to_str_fixed a len))) <= len)%N /\
+  (fst (ipv4_to_str_fixed a len) = 0%Z -> snd (ipv4_to_str_fixed a len) = ipv4_text a ++ [0%N]) /\
+  ((16 <= len)%N -> ipv4_to_str_fixed a len = (0%Z, ipv4_text a ++ [0%N])).
+Proof. exact bounds4_fixed. Qed.
+
 (* IPv6: below INET6_ADDRSTRLEN (46) the call fails and stores nothing; otherwise text + NUL, <= len *)
 Theorem C19_bounds6 : forall (ws : list N) (len : N),
   length ws = 8%nat -> Forall (fun w => (w < 65536)%N) ws ->
@@ -117,4 +124,5 @@ Print Assumptions C19_deterministic_fixed.
 Print Assumptions C19_fixed_agrees.
 Print Assumptions C19_never_stuck.
 Print Assumptions C19_bounds4.
+Print Assumptions C19_bounds4_fixed.
 Print Assumptions C19_bounds6.
